@@ -278,7 +278,8 @@ def benchmark_item(job):
     import shutil
     import tempfile
 
-    method, rxns = job
+    method, rxns = job[0], job[1]
+    gap = job[2] if len(job) > 2 else None   # (start, step): rows start, start+step, ... have no expected reaction
     rows = []
     for x in rxns:
         for v, _ in variants(x, "perm+rev"):
@@ -289,8 +290,10 @@ def benchmark_item(job):
         with open(src, "w", newline="") as f:
             w = csv.writer(f)
             w.writerow(["reaction", "expected_reaction", "solved", "solved_by", "confidence"])
+            is_gap = lambda i: gap is not None and i % gap[1] == gap[0]  # noqa: E731
             for i, (x, v) in enumerate(rows):
-                w.writerow([v, x, True, "rule-based" if i % 2 else "mcs-based", 1.0])
+                w.writerow([v, "" if is_gap(i) else x, True, "rule-based" if i % 2 else "mcs-based", 1.0])
+        n_expected = sum(1 for i in range(len(rows)) if not is_gap(i))
         n_rb = sum(1 for i in range(len(rows)) if i % 2)
         n_mcs = len(rows) - n_rb
         with open(src + ".stats", "w") as f:
@@ -309,10 +312,10 @@ def benchmark_item(job):
         with open(out) as f:
             res = _json.load(f)
         fails = []
-        if res.get("total_correct") != len(rows):
+        if res.get("total_correct") != n_expected:
             fails.append({"key": ["benchmark", "variant-not-counted-correct", method],
-                          "what": "benchmark --similarity-method {} counts {} of {} rows correct although every rebalanced reaction is an order/spelling variant of its expected reaction".format(
-                              method, res.get("total_correct"), len(rows))})
+                          "what": "benchmark --similarity-method {} counts {} of {} rows correct although every rebalanced reaction is an order/spelling variant of its expected reaction (rows without an expected reaction: {})".format(
+                              method, res.get("total_correct"), n_expected, gap)})
         return {"n": len(rows), "fails": fails}
     finally:
         shutil.rmtree(d, ignore_errors=True)
@@ -428,11 +431,12 @@ def run(tier, seed):
                                   p[0], p[1], f["x"], f["v"], f["observed"])))
     counts["histories"] = {"evaluations": sum(r["n"] for r in rh), "nontrivial": len(hpairs)}
     brx = rx2[:: max(1, len(rx2) // (400 if tier == "thorough" else 120))]
-    bjobs = [(m, brx[i::4]) for m in METHODS for i in range(4)]
+    gaps = [None, (0, 3), (1, 5), (2, 4)]   # rows without an expected reaction (the command skips them)
+    bjobs = [(m, brx[i::4], gaps[i]) for m in METHODS for i in range(4)]
     rb = pmap("checks.c17:benchmark_item", bjobs, chunk=1, seed=seed)
     for j, r in zip(bjobs, rb):
         for f in r["fails"][:1]:
-            res.add(Violation("benchmark", {"method": j[0], "rxns": j[1]}, None, None, f["key"], f["what"]))
+            res.add(Violation("benchmark", {"method": j[0], "rxns": j[1], "gap": j[2]}, None, None, f["key"], f["what"]))
     counts["benchmark-cli"] = {"evaluations": sum(r["n"] for r in rb), "nontrivial": len(bjobs)}
     res.coverage = {
         "evaluations": sum(c["evaluations"] for c in counts.values()),
@@ -476,7 +480,7 @@ def run(tier, seed):
 def replay(v):
     out = []
     if v.sub == "benchmark":
-        r = benchmark_item((v.case["method"], v.case["rxns"]))
+        r = benchmark_item((v.case["method"], v.case["rxns"], v.case.get("gap")))
         return [Violation("benchmark", v.case, None, None, f["key"], f["what"]) for f in r["fails"] if f["key"] == v.key][:1]
     if v.sub == "history":
         r = history_item(tuple(v.case["pair"]))
